@@ -36,7 +36,8 @@ class SplineInterpolator1D():
             bmat = np.zeros((1 + self._u + 2 * self._l, cmat.shape[1]))
             for i, j in zip(*cmat.nonzero()):
                 bmat[self._u + self._l+i-j, j] = cmat[i, j]
-            if (dtype == complex):
+            # dtype may be given as complex, np.complex128, 'complex128', ...
+            if (np.dtype(dtype).kind == 'c'):
                 self._bmat, self._ipiv, self._finfo = zgbtrf(
                     bmat, self._l, self._u)
                 self._solveFunc = zgbtrs
